@@ -506,7 +506,8 @@ Definition step (cf : config) (st : state) (l : label) : option state :=
   | LFire tm =>
       match lookup Z.eqb tm (timers st) with
       | Some t =>
-          if tm_armed t then
+          (* one Start, at most one OnTimer goroutine *)
+          if tm_armed t && (match lookup tid_eqb (TT tm) (threads st) with None => true | Some _ => false end) then
             Some (set_thread (set_timers st (insert Z.eqb tm
                     {| tm_armed := false; tm_active := tm_active t; tm_stopped := tm_stopped t; tm_released := tm_released t;
                        tm_key := tm_key t; tm_orig := tm_orig t |} (timers st))) (TT tm) [ITimerRun tm])
